@@ -22,7 +22,8 @@ which ser.stmt takes from location.begin.line).  Nothing is compared modulo orde
 dependent spot (`old2new` in _simple_translation) can matter only when a local variable V of an aggregate element
 is renamed while V0..V9 all occur in the rule; such inputs are skipped and counted in SKIPPED["hash_order"].
 
-CHANGED[family] = [cases in which the pass produced something different from its input, cases];
+CHANGED[family] = [cases in which the pass produced something different from its input, cases]
+(CHANGED_MM: the same restricted to programs with a #min/#max body aggregate);
 set MINMAX_FRAGMENT=1 to turn every case into "does the model answer inside its fragment?".
 """
 import copy
@@ -42,6 +43,7 @@ MAX_TEXT = 40000
 FOREIGN = [("__dom_p", 1), ("__dom___max_0_1", 1), ("__max_0_1", 2), ("p", 1), ("a", 1), ("in", 1), ("zzz", 2),
            ("__chain_0_0__max___dom___max_0_1", 1), ("__min_0_0__dom___max_0_1", 1), ("__next_0_0__dom___max_0_1", 2)]
 CHANGED = defaultdict(lambda: [0, 0])
+CHANGED_MM = defaultdict(lambda: [0, 0])     # the same, restricted to programs that contain a #min/#max body aggregate
 SKIPPED = defaultdict(int)
 MINMAX = (AggregateFunction.Min, AggregateFunction.Max)
 SUMS = (AggregateFunction.Sum, AggregateFunction.SumPlus)
@@ -432,7 +434,7 @@ def generated(rng, n):
     return out
 
 
-N_TARGETED = int(os.environ.get("MINMAX_TARGETED", "250"))
+N_TARGETED = int(os.environ.get("MINMAX_TARGETED", "400"))
 
 
 def with_targeted(inputs, rng):
@@ -603,6 +605,9 @@ class ProcessRule:
                 changed = r is not None and [[str(s) for s in c] for c in r[0]] != [[b] for b in before]
                 CHANGED[self.name][1] += 1
                 CHANGED[self.name][0] += changed
+                if any(has_minmax(x) for x in pp):
+                    CHANGED_MM[self.name][1] += 1
+                    CHANGED_MM[self.name][0] += changed
                 expr = f"chk_process (process_rules {t} {preds_s(ins)}) {obs}"
                 yield make(self.name, expr, f"in_fragment (process_rules {t} {preds_s(ins)})",
                            {"fn": "_process_rule", "program": text, "inputs": [str(p) for p in ins], "observed": js},
@@ -757,6 +762,9 @@ class Execute:
                 changed = r is not None and js != before
                 CHANGED[self.name][1] += 1
                 CHANGED[self.name][0] += changed
+                if any(has_minmax(x) for x in pp):
+                    CHANGED_MM[self.name][1] += 1
+                    CHANGED_MM[self.name][0] += changed
                 expr = f"chk_prog (mm_execute {t} {preds_s(ins)} {t}) {obs}"
                 yield make(self.name, expr, f"in_fragment (mm_execute {t} {preds_s(ins)} {t})",
                            {"fn": "MinMaxAggregator.execute", "program": text, "preprocessed": before,
